@@ -2,7 +2,7 @@
    sequential reference machine that hands the non-report key presses, one by
    one, to one prompt after the other (each followed at once by the key presses
    its handler fed with first=True). *)
-From Coq Require Import ZArith List Bool Lia.
+From Coq Require Import ZArith List Bool Lia Permutation.
 From PTK Require Import Lib.Py Model.C03_Vt100Parser Model.C17_Typeahead
   Proofs.C17_Core Proofs.C17_Conserve Proofs.C17_Accept.
 Import ListNotations.
@@ -773,6 +773,446 @@ Proof.
   eapply firstn_prefix. exact Hn.
 Qed.
 
+(* ---------------------------------------------------------------------- *)
+(* Handler-level conservation with FEEDING handlers, for every label sequence
+   (flush timeouts and close included): the key presses that reached handlers,
+   were dropped or were thrown out of the key buffer by a reset ++ the key
+   buffer are an interleaving of the key presses popped from input_queue (in
+   order) and the key presses handlers fed with first=True (each exactly once).
+   Together with queue_conservation: decoded -> popped -> handled, nothing
+   lost, duplicated or reordered; the only extra key presses are the fed ones. *)
+
+Lemma tl_all_app a b : tl_all (a ++ b) = tl_all a ++ tl_all b.
+Proof. unfold tl_all. apply map_app. Qed.
+Lemma tl_pop_app a b : tl_pop (a ++ b) = tl_pop a ++ tl_pop b.
+Proof. unfold tl_pop. rewrite filter_app. apply map_app. Qed.
+Lemma tl_fed_app a b : tl_fed (a ++ b) = tl_fed a ++ tl_fed b.
+Proof. unfold tl_fed. rewrite filter_app. apply map_app. Qed.
+Lemma tl_tag_all b l : tl_all (map (pair b) l) = l.
+Proof. unfold tl_all. rewrite map_map. cbn [snd]. apply map_id. Qed.
+Lemma tl_pop_false l : tl_pop (map (pair false) l) = l.
+Proof. unfold tl_pop. induction l as [|x l IH]; [reflexivity|]. cbn [map filter fst negb snd] in *. rewrite IH. reflexivity. Qed.
+Lemma tl_pop_true l : tl_pop (map (pair true) l) = [].
+Proof. unfold tl_pop. induction l as [|x l IH]; [reflexivity|]. cbn [map filter fst negb snd] in *. exact IH. Qed.
+Lemma tl_fed_false l : tl_fed (map (pair false) l) = [].
+Proof. unfold tl_fed. induction l as [|x l IH]; [reflexivity|]. cbn [map filter fst snd] in *. exact IH. Qed.
+Lemma tl_fed_true l : tl_fed (map (pair true) l) = l.
+Proof. unfold tl_fed. induction l as [|x l IH]; [reflexivity|]. cbn [map filter fst snd] in *. rewrite IH. reflexivity. Qed.
+
+Lemma nc_nil : nc [] = [].
+Proof. reflexivity. Qed.
+
+Notation handled := (@handled E bid res).
+Definition hA (c : core) : list kp := handled c ++ kbuf c.
+
+Lemma handled_add_ev (e : ev bid) (c : core) : handled (add_ev e c) = handled c ++ hev_keys e.
+Proof.
+  unfold C17_Typeahead.handled, add_ev; cbn [rlog rev].
+  rewrite map_app, concat_app; cbn [map concat]. now rewrite app_nil_r.
+Qed.
+
+Lemma handled_call b ks (c : core) : handled (call b ks c) = handled c ++ ks.
+Proof.
+  unfold C17_Typeahead.handled, C17_Typeahead.call; cbn [rlog rev].
+  rewrite map_app, concat_app; cbn [map concat hev_keys ev_keys]. now rewrite app_nil_r.
+Qed.
+
+(* one activation: what it did to the log, the key buffer, the push-back list and the fed list *)
+Definition LA (c c' : core) : Prop :=
+  exists K F G, pb c' = K ++ F ++ pb c /\
+    handled c' ++ kbuf c' ++ K = handled c ++ kbuf c /\
+    fedl c' = fedl c ++ G /\ Permutation G F /\
+    (cph c' = CRun res -> K = []).
+
+Lemma LA_refl (c : core) : LA c c.
+Proof. exists [], [], []. cbn [app]. rewrite !app_nil_r. auto 6. Qed.
+
+Lemma LA_same (c c2 c' : core) :
+  pb c2 = pb c -> handled c2 = handled c -> kbuf c2 = kbuf c -> fedl c2 = fedl c -> LA c2 c' -> LA c c'.
+Proof. intros H1 H2 H3 H4 (K & F & G & A & B & C & D). exists K, F, G. rewrite <- H1, <- H2, <- H3, <- H4. auto. Qed.
+
+Lemma LA_retry f (c c1 : core) F1 G1 :
+  (forall fl x, LA x (loop f fl x)) ->
+  pb c1 = F1 ++ pb c -> handled c1 ++ kbuf c1 = handled c ++ kbuf c ->
+  fedl c1 = fedl c ++ G1 -> Permutation G1 F1 ->
+  LA c (retry (loop f false) c1).
+Proof.
+  intros IH P1 A1 D1 PM. unfold retry. destruct (late c1) eqn:LT.
+  - exists (kbuf c1), F1, G1. cbn [pb kbuf cph fedl push_back].
+    change (handled (push_back c1)) with (handled c1). rewrite P1. cbn [app].
+    split; [reflexivity|]. split; [exact A1|]. split; [exact D1|]. split; [exact PM|].
+    intros X. unfold late in LT. rewrite X in LT. discriminate.
+  - destruct (IH false c1) as (K & F & G & A & B & C & D & Z).
+    exists K, (F ++ F1), (G1 ++ G). rewrite A, P1, B, A1, C, D1, <- !app_assoc.
+    split; [reflexivity|]. split; [reflexivity|]. split; [reflexivity|]. split; [|exact Z].
+    eapply Permutation_trans; [apply Permutation_app_comm|]. apply Permutation_app; assumption.
+Qed.
+
+Lemma loop_LA fuel : forall fl (c : core), LA c (loop fuel fl c).
+Proof.
+  induction fuel as [|f IH]; intros fl c; cbn [C17_Typeahead.loop].
+  - destruct (kbuf c) eqn:KBE; [apply LA_refl|].
+    eapply LA_same with (c2 := set_oof c); [reflexivity|reflexivity|reflexivity|reflexivity|].
+    replace (set_oof c) with (set_oof c) by reflexivity. apply LA_refl.
+  - destruct (kbuf c) as [|k0 tl0] eqn:KBE; [apply LA_refl|].
+    assert (X : forall b, LA c (set_kbuf [] (call b (k0 :: tl0) c))).
+    { intros b. exists [], (feeds b (k0 :: tl0) (est c)), (feeds b (k0 :: tl0) (est c)).
+      cbn [pb kbuf fedl set_kbuf C17_Typeahead.call app].
+      change (handled (set_kbuf [] (call b (k0 :: tl0) c))) with (handled (call b (k0 :: tl0) c)).
+      rewrite handled_call, KBE, !app_nil_r. auto 6. }
+    assert (Y : forall b i, LA c (retry (loop f false) (set_kbuf (skipn i (k0 :: tl0)) (call b (firstn i (k0 :: tl0)) c)))).
+    { intros b i. apply LA_retry with (F1 := feeds b (firstn i (k0 :: tl0)) (est c)) (G1 := feeds b (firstn i (k0 :: tl0)) (est c)).
+      - exact IH.
+      - reflexivity.
+      - cbn [kbuf set_kbuf].
+        change (handled (set_kbuf (skipn i (k0 :: tl0)) (call b (firstn i (k0 :: tl0)) c))) with (handled (call b (firstn i (k0 :: tl0)) c)).
+        rewrite handled_call, KBE, <- app_assoc, firstn_skipn. reflexivity.
+      - reflexivity.
+      - apply Permutation_refl. }
+    assert (Z : LA c (retry (loop f false) (set_kbuf tl0 (add_ev (@EDrop bid (late c) k0) c)))).
+    { apply LA_retry with (F1 := []) (G1 := []).
+      - exact IH.
+      - reflexivity.
+      - cbn [kbuf set_kbuf].
+        change (handled (set_kbuf tl0 (add_ev (@EDrop bid (late c) k0) c))) with (handled (add_ev (@EDrop bid (late c) k0) c)).
+        rewrite handled_add_ev, KBE, <- app_assoc. reflexivity.
+      - cbn [fedl set_kbuf add_ev]. rewrite app_nil_r. reflexivity.
+      - apply Permutation_refl. }
+    destruct (cph c) eqn:PH; [| |apply LA_refl].
+    + destruct (negb fl && waits (est c) (k0 :: tl0)); [apply LA_refl|].
+      destruct (lookup (est c) (k0 :: tl0)) as [b|]; [apply X|].
+      destruct (scan (length (k0 :: tl0)) c) as [[b i]|]; [apply Y|apply Z].
+    + destruct (negb fl && waits (est c) (k0 :: tl0)); [apply LA_refl|].
+      destruct (lookup (est c) (k0 :: tl0)) as [b|]; [apply X|].
+      destruct (scan (length (k0 :: tl0)) c) as [[b i]|]; [apply Y|apply Z].
+Qed.
+
+(* delivering one item from a state with nothing waiting to be pushed back *)
+Lemma deliver_A it (c : core) : pb c = [] ->
+  exists K F G, pb (deliver it c) = K ++ F /\
+    nc (hA (deliver it c)) ++ nc K = nc (hA c) ++ nc (ikeys [it]) /\
+    fedl (deliver it c) = fedl c ++ G /\ Permutation G F /\
+    (cph (deliver it c) = CRun res -> K = []).
+Proof.
+  intros P0. destruct it as [k|]; cbn [C17_Typeahead.deliver ikeys].
+  - destruct (is_cpr k) eqn:CK.
+    + exists [], [], []. unfold C17_Typeahead.handle_cpr.
+      destruct (cpr_lookup (est c)) as [b|] eqn:L.
+      * destruct (Hsil (est c) b L [k] (est c)) as (HE & HF).
+        unfold hA. rewrite handled_call. unfold C17_Typeahead.call; cbn [pb kbuf fedl]. rewrite HF, P0.
+        rewrite !nc_app, (nc_cpr k CK). cbn [app nc filter]. rewrite !app_nil_r. auto 6.
+      * rewrite P0, (nc_cpr k CK). cbn [app nc filter]. rewrite !app_nil_r. auto 6.
+    + unfold C17_Typeahead.send.
+      destruct (loop_LA (S (S (length (kbuf c)))) false (set_kbuf (kbuf c ++ [k]) c)) as (K & F & G & A & B & C & D & Z).
+      exists K, F, G. cbn [pb kbuf fedl set_kbuf] in A, B, C.
+      change (handled (set_kbuf (kbuf c ++ [k]) c)) with (handled c) in B.
+      rewrite P0, app_nil_r in A. split; [exact A|]. split; [|auto].
+      unfold hA. rewrite <- !nc_app, <- app_assoc, B, <- !app_assoc. reflexivity.
+  - unfold C17_Typeahead.send.
+    destruct (loop_LA (S (length (kbuf c))) true c) as (K & F & G & A & B & C & D & Z).
+    exists K, F, G. rewrite P0, app_nil_r in A. split; [exact A|]. split; [|auto].
+    unfold hA. rewrite <- !nc_app, <- app_assoc, B. cbn [nc filter]. rewrite !app_nil_r. reflexivity.
+Qed.
+
+Lemma loop_deep_g fuel : forall fl (c : core), deep (loop fuel fl c) = deep c.
+Proof.
+  induction fuel as [|f IH]; intros fl c; cbn [C17_Typeahead.loop].
+  - destruct (kbuf c); reflexivity.
+  - destruct (kbuf c) as [|k0 tl0]; [reflexivity|].
+    assert (R0 : forall c1 : core, deep c1 = deep c -> deep (retry (loop f false) c1) = deep c).
+    { intros c1 H. unfold retry. destruct (late c1); [exact H|rewrite IH; exact H]. }
+    destruct (cph c); [| |reflexivity].
+    + destruct (negb fl && waits (est c) (k0 :: tl0)); [reflexivity|].
+      destruct (lookup (est c) (k0 :: tl0)); [reflexivity|].
+      destruct (scan (length (k0 :: tl0)) c) as [[x i]|]; apply R0; reflexivity.
+    + destruct (negb fl && waits (est c) (k0 :: tl0)); [reflexivity|].
+      destruct (lookup (est c) (k0 :: tl0)); [reflexivity|].
+      destruct (scan (length (k0 :: tl0)) c) as [[x i]|]; apply R0; reflexivity.
+Qed.
+
+Lemma deliver_deep_g it (c : core) : deep (deliver it c) = deep c.
+Proof.
+  destruct it as [k|]; cbn [C17_Typeahead.deliver]; [|unfold C17_Typeahead.send; rewrite loop_deep_g; reflexivity].
+  destruct (is_cpr k); [|unfold C17_Typeahead.send; rewrite loop_deep_g; reflexivity].
+  unfold C17_Typeahead.handle_cpr. destruct (cpr_lookup (est c)); reflexivity.
+Qed.
+
+Lemma perm_nil_r (G : list kp) : Permutation G [] -> G = [].
+Proof. intros H. apply Permutation_sym in H. apply Permutation_nil in H. exact H. Qed.
+
+(* the keys a handler fed, delivered one after the other: when the model did
+   not give up ([deep]) and nothing is left to be pushed back, every one of
+   them went through the processor and none of their handlers fed again *)
+Lemma drain_A l : forall c : core, pb c = [] -> deep c = false -> deep (drain l c) = false -> pb (drain l c) = [] ->
+  nc (hA (drain l c)) = nc (hA c) ++ nc l /\ fedl (drain l c) = fedl c.
+Proof.
+  induction l as [|k l IH]; intros c P0 D0 D1 P1; cbn [C17_Typeahead.drain] in *.
+  - rewrite nc_nil, app_nil_r. auto.
+  - destruct (deliver_A (IKey k) c P0) as (K & F & G & A & B & C & D & Z).
+    pose proof (deliver_deep_g (IKey k) c) as DD.
+    cbn [ikeys] in B.
+    destruct (cph (deliver (IKey k) c)) eqn:PC.
+    + rewrite (Z eq_refl) in *. cbn [app] in A. rewrite nc_nil, app_nil_r in B.
+      destruct (pb (deliver (IKey k) c)) eqn:PB.
+      * subst F. apply perm_nil_r in D. subst G. rewrite app_nil_r in C.
+        destruct (IH (deliver (IKey k) c) PB ltac:(congruence) D1 P1) as (I1 & I2).
+        rewrite I1, I2, B, C, <- app_assoc, <- nc_app. auto.
+      * cbn [deep set_deep] in D1. discriminate.
+    + cbn [pb set_pb] in P1. apply app_eq_nil in P1. destruct P1 as [P1 P2]. subst l.
+      rewrite P1 in A. symmetry in A. apply app_eq_nil in A. destruct A as [-> ->].
+      apply perm_nil_r in D. subst G. rewrite app_nil_r in C. rewrite nc_nil, app_nil_r in B.
+      cbn [fedl set_pb]. change (hA (set_pb (pb (deliver (IKey k) c) ++ []) (deliver (IKey k) c))) with (hA (deliver (IKey k) c)).
+      rewrite B. auto.
+    + cbn [pb set_pb] in P1. apply app_eq_nil in P1. destruct P1 as [P1 P2]. subst l.
+      rewrite P1 in A. symmetry in A. apply app_eq_nil in A. destruct A as [-> ->].
+      apply perm_nil_r in D. subst G. rewrite app_nil_r in C. rewrite nc_nil, app_nil_r in B.
+      cbn [fedl set_pb]. change (hA (set_pb (pb (deliver (IKey k) c) ++ []) (deliver (IKey k) c))) with (hA (deliver (IKey k) c)).
+      rewrite B. auto.
+Qed.
+
+(* the model follows one level of feeding; binding sets for which that is
+   enough (proved for the real table: d_no_deep) *)
+Definition no_deep : Prop :=
+  forall (c : core) it, cph c = CRun res -> pb c = [] -> KB c -> deep (deliver_d it c) = deep c.
+
+Hypothesis Hnd : no_deep.
+
+Lemma dd_A it (c : core) : cph c = CRun res -> pb c = [] -> KB c -> deep c = false ->
+  exists dl G, nc (hA (deliver_d it c)) = nc (hA c) ++ nc (ikeys [it]) ++ nc dl /\
+    fedl (deliver_d it c) = fedl c ++ G /\ Permutation G dl /\
+    pb (deliver_d it c) = [] /\ deep (deliver_d it c) = false.
+Proof.
+  intros PH P0 K0 D0.
+  assert (PB : pb (deliver_d it c) = []).
+  { destruct (cph (deliver_d it c)) eqn:PC; [apply (@deliver_d_pb_run E bid res lookup lookup_scan waits eff is_cprh cpr_lookup feeds); exact PC| |];
+      (apply Hnp; [exact PH|exact P0|exact K0|congruence]). }
+  assert (DP : deep (deliver_d it c) = false) by (rewrite (Hnd c it PH P0 K0); exact D0).
+  revert PB DP. unfold C17_Typeahead.deliver_d.
+  destruct (deliver_A it c P0) as (K & F & G & A & B & C & D & Z).
+  destruct (cph (deliver it c)) eqn:PC.
+  - intros PB DP. rewrite (Z eq_refl) in *. cbn [app] in A. rewrite nc_nil, app_nil_r in B. rewrite A in *.
+    destruct (drain_A F (clear_pb (deliver it c)) eq_refl) as (I1 & I2); [|exact DP|exact PB|].
+    { cbn [deep clear_pb]. rewrite deliver_deep_g. exact D0. }
+    exists F, G. change (hA (clear_pb (deliver it c))) with (hA (deliver it c)) in I1. cbn [fedl clear_pb] in I2.
+    rewrite I1, I2, B, <- app_assoc. auto 6.
+  - intros PB DP. rewrite PB in A. symmetry in A. apply app_eq_nil in A. destruct A as [-> ->].
+    apply perm_nil_r in D. subst G. rewrite nc_nil, app_nil_r in B.
+    exists [], []. rewrite nc_nil, !app_nil_r. rewrite app_nil_r in C. split; [exact B|]. split; [exact C|]. split; [constructor|]. auto.
+  - intros PB DP. rewrite PB in A. symmetry in A. apply app_eq_nil in A. destruct A as [-> ->].
+    apply perm_nil_r in D. subst G. rewrite nc_nil, app_nil_r in B.
+    exists [], []. rewrite nc_nil, !app_nil_r. rewrite app_nil_r in C. split; [exact B|]. split; [exact C|]. split; [constructor|]. auto.
+Qed.
+
+(* the handler-level invariant of the key processor *)
+Definition Hc (c : core) : Prop :=
+  exists t, nc (tl_all t) = nc (hA c) /\ nc (tl_pop t) = nc (rpops c) /\ Permutation (tl_fed t) (fedl c).
+Definition Pc (c : core) : Prop := deep c = false /\ Hc c.
+
+Lemma Pc_same (c c' : core) :
+  rlog c' = rlog c -> kbuf c' = kbuf c -> rpops c' = rpops c -> fedl c' = fedl c -> deep c' = deep c -> Pc c -> Pc c'.
+Proof.
+  intros H1 H2 H3 H4 H5 (D & t & A & B & C). split; [congruence|]. exists t.
+  unfold hA, C17_Typeahead.handled in *. rewrite H1, H2, H3, H4. auto.
+Qed.
+
+Lemma pq_H q : forall c : core, pb c = [] -> KBr c -> Pc c -> Pc (fst (process_q q c)).
+Proof.
+  induction q as [|it q IH]; intros c P0 K HP; cbn [C17_Typeahead.process_q]; [exact HP|].
+  destruct (cph c) eqn:PH.
+  - cbn [fst].
+    set (c0 := pop it c).
+    assert (C0 : core_eq c0 c) by (unfold core_eq, c0; destruct it; cbn; auto).
+    assert (PH0 : cph c0 = CRun res) by (destruct C0 as (_ & _ & X & _); congruence).
+    assert (P00 : pb c0 = []) by (destruct C0 as (_ & _ & _ & X); congruence).
+    assert (K0 : KB c0) by (apply (KBr_congr c c0 (core_eq_sym _ _ C0) K); exact PH0).
+    destruct HP as (D0 & t & T1 & T2 & T3).
+    assert (D00 : deep c0 = false) by (unfold c0; destruct it; exact D0).
+    destruct (dd_A it c0 PH0 P00 K0 D00) as (dl & G & A & B & C & PB & DP).
+    apply IH; [reflexivity| |].
+    + intros X. cbn [cph clear_pb] in X. exact (deliver_d_KB it c0 K0 X).
+    + split; [exact DP|].
+      exists (t ++ map (pair false) (ikeys [it]) ++ map (pair true) dl).
+      change (hA (clear_pb (deliver_d it c0))) with (hA (deliver_d it c0)). cbn [rpops fedl clear_pb].
+      rewrite !tl_all_app, !tl_pop_app, !tl_fed_app, !tl_tag_all, tl_pop_false, tl_pop_true, tl_fed_false, tl_fed_true.
+      rewrite app_nil_r. cbn [app]. rewrite !nc_app, T1, T2, A, B, deliver_d_rpops.
+      assert (HA0 : hA c0 = hA c) by (unfold c0; destruct it; reflexivity).
+      assert (RP0 : rpops c0 = rpops c ++ ikeys [it]) by (unfold c0; destruct it; cbn [C17_Typeahead.pop rpops add_pop ikeys]; rewrite ?app_nil_r; reflexivity).
+      assert (FD0 : fedl c0 = fedl c) by (unfold c0; destruct it; reflexivity).
+      rewrite HA0, RP0, FD0, nc_app. split; [reflexivity|]. split; [reflexivity|].
+      apply Permutation_app; [exact T3|apply Permutation_sym; exact C].
+  - destruct (item_is_cpr it) eqn:CI; cbn [fst]; [|apply IH; assumption].
+    destruct it as [k|]; [|discriminate]. cbn [item_is_cpr] in CI.
+    set (c0 := pop (IKey k) c).
+    assert (P00 : pb c0 = []) by exact P0.
+    destruct (deliver_A (IKey k) c0 P00) as (K1 & F & G & A & B & C & D & Z).
+    assert (E4 : pb (deliver (IKey k) c0) = []).
+    { cbn [C17_Typeahead.deliver]. rewrite CI. destruct (handle_cpr_core_eq k c0) as (_ & _ & _ & X). rewrite X. exact P00. }
+    assert (E3 : cph (deliver (IKey k) c0) = cph c).
+    { cbn [C17_Typeahead.deliver]. rewrite CI. destruct (handle_cpr_core_eq k c0) as (_ & _ & X & _). rewrite X. reflexivity. }
+    rewrite E4 in A. symmetry in A. apply app_eq_nil in A. destruct A as [-> ->].
+    apply perm_nil_r in D. subst G. cbn [ikeys] in B. rewrite (nc_cpr k CI) in B. rewrite nc_nil in B. rewrite !app_nil_r in B, C.
+    apply IH; [reflexivity| |].
+    + intros X. cbn [cph clear_pb] in X. rewrite E3, PH in X. discriminate.
+    + destruct HP as (D0 & t & T1 & T2 & T3). split.
+      * cbn [deep clear_pb]. rewrite deliver_deep_g. exact D0.
+      * exists t. change (hA (clear_pb (deliver (IKey k) c0))) with (hA (deliver (IKey k) c0)). cbn [rpops fedl clear_pb].
+        rewrite B, C, deliver_rpops. unfold c0. cbn [C17_Typeahead.pop rpops add_pop fedl].
+        change (hA (add_pop k c)) with (hA c). rewrite nc_app, (nc_cpr k CI), !app_nil_r. auto.
+  - exact HP.
+Qed.
+
+Lemma Pc_do_read n (s : sys) : pb (co s) = [] -> KBr (co s) -> Pc (co s) -> Pc (co (do_read n s)).
+Proof.
+  intros P0 K HP. unfold C17_Typeahead.do_read. cbv zeta. destruct (pipe s).
+  - assert (X : Pc (co (pk s))) by (unfold C17_Typeahead.pk; cbn [co with_co with_queue]; apply pq_H; assumption).
+    destruct (wclosed s); [|exact X].
+    destruct (cph (co (pk s))); [|exact X|exact X].
+    cbn [co with_co]. eapply Pc_same; [| | | | |exact X]; reflexivity.
+  - unfold C17_Typeahead.feed_keys, C17_Typeahead.pk; cbn [co queue with_co with_queue]. apply pq_H; assumption.
+Qed.
+
+Lemma Pc_step (s : sys) l : Kq s -> Pc (co s) -> Pc (co (step s l)).
+Proof.
+  intros (K & P0 & _) HP.
+  assert (PQ : forall q, Pc (fst (process_q q (co s)))) by (intros q; apply pq_H; assumption).
+  unfold C17_Typeahead.step.
+  destruct (cph (co s)) eqn:PH; destruct l; try exact HP.
+  all: try (destruct (wclosed s); exact HP).
+  all: try (destruct (at_ s) eqn:A; try exact HP;
+            try (apply Pc_do_read; assumption);
+            try (destruct (wcpr (co s)); [exact HP|apply Pc_do_read; assumption]);
+            try (unfold C17_Typeahead.feed_keys, C17_Typeahead.pk; cbn [co queue with_co with_queue]; apply PQ);
+            try (destruct (wcpr (co s)); exact HP);
+            try (destruct (kbuf (co s)); [exact HP|]; unfold C17_Typeahead.pk; cbn [co queue with_co with_queue]; apply PQ);
+            try (destruct (rcpr s && negb (Nat.eqb (wcpr (co s)) 0)); exact HP);
+            fail).
+  (* LStart, twice *)
+  all: destruct (at_ s) eqn:A; [|exact HP|exact HP];
+       unfold C17_Typeahead.pk; cbn [co queue with_co with_queue]; apply pq_H;
+       [exact P0|intros _; left; reflexivity|];
+       destruct HP as (D0 & t & T1 & T2 & T3); (split; [exact D0|]); exists t;
+       cbn [rpops fedl]; (split; [|auto]); rewrite T1; unfold hA, C17_Typeahead.handled; cbn [rlog kbuf];
+       destruct (kbuf (co s)), (queue s); cbn [rev map concat hev_keys ev_keys app];
+       rewrite ?map_app, ?concat_app; cbn [map concat hev_keys ev_keys app]; rewrite ?app_nil_r, <- ?app_assoc; reflexivity.
+Qed.
+
+Lemma Pc_run ls : forall s : sys, Kq s -> Pc (co s) -> Pc (co (run ls s)).
+Proof.
+  induction ls as [|l ls IH]; intros s K HP; [exact HP|]. cbn [C17_Typeahead.run fold_left].
+  apply IH; [apply Kq_step; exact K|apply Pc_step; assumption].
+Qed.
+
+Lemma handler_conservation ls e p r :
+  let s := run ls (@init E bid res PS e p r) in
+  deep (co s) = false /\
+  exists t, nc (tl_all t) = nc (handled (co s)) ++ nc (kbuf (co s)) /\
+            nc (tl_pop t) = nc (rpops (co s)) /\ Permutation (tl_fed t) (fedl (co s)).
+Proof.
+  intros s.
+  destruct (Pc_run ls (@init E bid res PS e p r)) as (D & t & A & B & C).
+  - unfold Kq, init, init_core; cbn. split; [intros _; left; reflexivity|]. split; [reflexivity|].
+    split; [intros X; congruence|]. split; reflexivity.
+  - split; [reflexivity|]. exists []. cbn. auto.
+  - split; [exact D|]. exists t. unfold hA in A. rewrite nc_app in A. auto.
+Qed.
+
+(* ---------------------------------------------------------------------- *)
+(* every key press in the fed list came out of [feeds]: a property of all
+   key presses handlers can feed holds of the whole list, on every run *)
+Section Fed.
+Variable Pk : kp -> Prop.
+Hypothesis Hfeeds : forall b ks e, Forall Pk (feeds b ks e).
+
+Definition Fc (c : core) : Prop := Forall Pk (fedl c).
+
+Lemma Fc_call b ks (c : core) : Fc c -> Fc (call b ks c).
+Proof. intros H. unfold Fc, C17_Typeahead.call; cbn [fedl]. apply Forall_app; split; [exact H|apply Hfeeds]. Qed.
+
+Lemma Fc_retry (k : core -> core) (c1 : core) : (forall c, Fc c -> Fc (k c)) -> Fc c1 -> Fc (retry k c1).
+Proof. intros HK H. unfold retry. destruct (late c1); [exact H|apply HK; exact H]. Qed.
+
+Lemma Fc_loop fuel : forall fl (c : core), Fc c -> Fc (loop fuel fl c).
+Proof.
+  induction fuel as [|f IH]; intros fl c H; cbn [C17_Typeahead.loop].
+  - destruct (kbuf c); exact H.
+  - destruct (kbuf c) as [|k0 tl0] eqn:KBE; [exact H|].
+    assert (X : forall b, Fc (set_kbuf [] (call b (k0 :: tl0) c))) by (intros b; exact (Fc_call b _ c H)).
+    assert (Y : forall b i, Fc (retry (loop f false) (set_kbuf (skipn i (k0 :: tl0)) (call b (firstn i (k0 :: tl0)) c)))).
+    { intros b i. apply Fc_retry; [intros; apply IH; assumption|]. exact (Fc_call b _ c H). }
+    assert (Z : Fc (retry (loop f false) (set_kbuf tl0 (add_ev (@EDrop bid (late c) k0) c)))).
+    { apply Fc_retry; [intros; apply IH; assumption|]. exact H. }
+    destruct (cph c); [| |exact H].
+    + destruct (negb fl && waits (est c) (k0 :: tl0)); [exact H|].
+      destruct (lookup (est c) (k0 :: tl0)) as [b|]; [apply X|].
+      destruct (scan (length (k0 :: tl0)) c) as [[b i]|]; [apply Y|apply Z].
+    + destruct (negb fl && waits (est c) (k0 :: tl0)); [exact H|].
+      destruct (lookup (est c) (k0 :: tl0)) as [b|]; [apply X|].
+      destruct (scan (length (k0 :: tl0)) c) as [[b i]|]; [apply Y|apply Z].
+Qed.
+
+Lemma Fc_deliver it (c : core) : Fc c -> Fc (deliver it c).
+Proof.
+  intros H. destruct it as [k|]; cbn [C17_Typeahead.deliver].
+  - destruct (is_cpr k).
+    + unfold C17_Typeahead.handle_cpr. destruct (cpr_lookup (est c)) as [b|]; [apply Fc_call|]; exact H.
+    + unfold C17_Typeahead.send. apply Fc_loop. exact H.
+  - unfold C17_Typeahead.send. apply Fc_loop. exact H.
+Qed.
+
+Lemma Fc_drain l : forall c : core, Fc c -> Fc (drain l c).
+Proof.
+  induction l as [|k l IH]; intros c H; cbn [C17_Typeahead.drain]; [exact H|].
+  pose proof (Fc_deliver (IKey k) c H) as H'.
+  destruct (cph (deliver (IKey k) c)); [|exact H'|exact H'].
+  destruct (pb (deliver (IKey k) c)); [apply IH; exact H'|exact H'].
+Qed.
+
+Lemma Fc_deliver_d it (c : core) : Fc c -> Fc (deliver_d it c).
+Proof.
+  intros H. unfold C17_Typeahead.deliver_d. pose proof (Fc_deliver it c H) as H'.
+  destruct (cph (deliver it c)); [|exact H'|exact H']. apply Fc_drain. exact H'.
+Qed.
+
+Lemma Fc_process_q q : forall c : core, Fc c -> Fc (fst (process_q q c)).
+Proof.
+  induction q as [|it q IH]; intros c H; cbn [C17_Typeahead.process_q]; [exact H|].
+  destruct (cph c); [| |exact H].
+  - cbn [fst]. apply IH. apply (Fc_deliver_d it). destruct it; exact H.
+  - destruct (item_is_cpr it); cbn [fst]; apply IH; [|exact H]. apply (Fc_deliver it). destruct it; exact H.
+Qed.
+
+Lemma Fc_pk (s : sys) : Fc (co s) -> Fc (co (pk s)).
+Proof. intros H. unfold C17_Typeahead.pk; cbn [co with_co]. apply Fc_process_q. exact H. Qed.
+
+Lemma Fc_step (s : sys) l : Fc (co s) -> Fc (co (step s l)).
+Proof.
+  intros H. unfold C17_Typeahead.step.
+  destruct (cph (co s)) eqn:PH; destruct l; try exact H.
+  all: try (destruct (wclosed s); exact H).
+  all: try (destruct (at_ s); try exact H;
+            try (destruct (wcpr (co s)); try exact H);
+            try (unfold C17_Typeahead.do_read; cbv zeta; destruct (pipe s);
+                 [destruct (wclosed s); [destruct (cph (co (pk s))) eqn:P2|]; try (apply Fc_pk; exact H);
+                  pose proof (Fc_pk s H) as H'; exact H'
+                 |unfold C17_Typeahead.feed_keys; apply Fc_pk; exact H]);
+            try (unfold C17_Typeahead.feed_keys; apply Fc_pk; exact H);
+            try (destruct (kbuf (co s)); [exact H|apply Fc_pk; exact H]);
+            try (apply Fc_pk; exact H);
+            try (destruct (rcpr s && negb (Nat.eqb (wcpr (co s)) 0)); exact H); fail).
+  destruct (at_ s); try exact H. destruct (rcpr s && negb (Nat.eqb (wcpr (co s)) 0)); exact H.
+Qed.
+
+Lemma Fc_run ls : forall s : sys, Fc (co s) -> Fc (co (run ls s)).
+Proof.
+  induction ls as [|l ls IH]; intros s H; [exact H|]. cbn [C17_Typeahead.run fold_left].
+  apply IH. apply Fc_step. exact H.
+Qed.
+
+Lemma fed_all ls e p r : Forall Pk (fedl (co (run ls (@init E bid res PS e p r)))).
+Proof. apply Fc_run. unfold Fc, init, init_core; cbn. constructor. Qed.
+End Fed.
+
 End P.
+Arguments no_deep {E bid res} lookup lookup_scan waits eff is_cprh cpr_lookup feeds.
 Arguments no_pushback {E bid res} lookup lookup_scan waits eff is_cprh cpr_lookup feeds.
 Arguments KB {E bid res} waits c.
